@@ -7,6 +7,7 @@ import (
 	"go/token"
 	"go/types"
 	"sort"
+	"strconv"
 	"strings"
 
 	"github.com/lopolopen/shoot/internal/tools/logx"
@@ -119,15 +120,26 @@ func (g *Generator) makeStr(typeName string) {
 	}
 
 	var nameList []string
-	valueMap := make(map[string]int64)
+	valueMap := make(map[string]string)
 	strMap := make(map[string]string)
 	sort.Slice(values, func(i, j int) bool {
+		if values[i].signed {
+			return int64(values[i].value) < int64(values[j].value)
+		}
 		return values[i].value < values[j].value
 	})
 	var enums []string
 	for _, v := range values {
 		nameList = append(nameList, v.name)
-		valueMap[v.name] = int64(v.value)
+		if v.signed {
+			valueMap[v.name] = strconv.FormatInt(int64(v.value), 10)
+			if int64(v.value) < 0 {
+				//`x[Name--1]` does not parse
+				valueMap[v.name] = "(" + valueMap[v.name] + ")"
+			}
+		} else {
+			valueMap[v.name] = strconv.FormatUint(v.value, 10)
+		}
 		shortName := strings.TrimPrefix(v.name, typeName)
 		strMap[v.name] = shortName
 		enums = append(enums, fmt.Sprintf("'%s'", shortName))
